@@ -146,9 +146,9 @@ func (ev *evidence) finish(wall float64) {
 	repoN := 0
 	var names []string
 	for k, pos := range c.funcs {
-		if strings.Contains(pos, "/repo/") && !strings.Contains(pos, "zz_verif_") && !strings.Contains(pos, "internal/verifrt") {
+		if strings.Contains(pos, repoDir+"/") && !strings.Contains(pos, "zz_verif_") && !strings.Contains(pos, "internal/verifrt") {
 			repoN++
-			names = append(names, k+" @ "+strings.TrimPrefix(pos, "/repo/"))
+			names = append(names, k+" @ "+strings.TrimPrefix(pos, repoDir+"/"))
 		}
 	}
 	sort.Strings(names)
